@@ -26,8 +26,8 @@ theorem mode_option_symlink (a : Args) (src : StatE) (ex : List (Path × Path)) 
     (applyInfo a src ex).1.mode = src.mode := by
   simp [applyInfo, hs]
 
-theorem mode_option_other (a : Args) (m : Nat) (hm : a.mode = some m) (src : StatE) (ex : List (Path × Path)) (hs : src.isSymlink = false) :
+theorem mode_option_other (a : Args) (m : Nat) (hm : a.mode = some m) (hms : a.modeStr = none) (src : StatE) (ex : List (Path × Path)) (hs : src.isSymlink = false) :
     (applyInfo a src ex).1.mode = (src.mode &&& (4294967295 - permMask)) ||| goPermOfUnix m := by
-  simp [applyInfo, hs, hm]
+  simp [applyInfo, hs, hm, hms]
 
 end Fsm.C13
